@@ -707,6 +707,7 @@ int mpq_EGlpNumReadStrXc (mpq_t var,
 	int n_char = 0,
 	  n_dig = 0,
 	  cn = 0;
+	int bad_exp = 0;
 	mpq_t den[2];
 	mpq_init (den[0]);
 	mpq_init (den[1]);
@@ -750,7 +751,12 @@ int mpq_EGlpNumReadStrXc (mpq_t var,
 			 * exponent */
 			else
 			{
-				l_exp = 10 * l_exp + c - '0';
+				/* an exponent beyond 99999 overflows the counter long before the power
+				 * of ten could be expanded: such a string is not a number */
+				if (l_exp > 9999)
+					bad_exp = 1;
+				else
+					l_exp = 10 * l_exp + c - '0';
 				a_exp_sgn = 0;
 			}
 			a_sgn = 0;
@@ -808,6 +814,8 @@ int mpq_EGlpNumReadStrXc (mpq_t var,
 		/* advance the reading character */
 		c = str[++n_char];
 	}
+	if (bad_exp)
+		n_char = 0;
 	if (n_char)
 	{
 		/* now expand the exponent of the denominator */
